@@ -11,7 +11,11 @@ Verdict(e) ==
     LET want == RefShape(e.shape, RefFull(Fold(Empty, e.hist)), 1) IN
     [tid |-> e.tid,
      bound |-> want = e.ref,
-     fault |-> IF e.prepare # "" THEN "prepare-error"
+     \* the engine rejecting the plain transcription itself with the very diagnosis it gives the library's text
+     \* (VALUES rows of different length, one table twice in FROM, a DO UPDATE predicate over the SELECT's table)
+     \* means the calls have no meaning to preserve: not a verdict on the library
+     fault |-> IF e.prepare # "" /\ e.prepare = e.refprepare THEN ""
+               ELSE IF e.prepare # "" THEN "prepare-error"
                ELSE IF e.refprepare # "" THEN "reference-rejected"
                ELSE IF e.explain_equal \/ e.rows_equal THEN "" ELSE "rows-differ"]
 Next == /\ i <= Len(Events)
